@@ -23,7 +23,7 @@ Ltac split_match H :=
 Ltac step_cases H :=
   match type of H with
   | step false ?s ?x = Some ?s' =>
-      destruct x as [?d|?a ?iv ?i|?r ?L ?i|?a|?r|?c];
+      destruct x as [?d|?a ?iv ?i|?r ?L ?i|?a|?r|?c|?v];
       cbn [step] in H;
       [ split_match H; try discriminate H; inv_some
       | split_match H; try discriminate H; inv_some
@@ -31,7 +31,8 @@ Ltac step_cases H :=
       | unfold astep in H; split_match H; try discriminate H; inv_some
       | unfold rstep in H; split_match H; try discriminate H; inv_some
       | unfold tstep, pop_rq, after_drain, after_recheck, after_sched in H;
-        split_match H; try discriminate H; try inv_some ]
+        split_match H; try discriminate H; try inv_some
+      | split_match H; try discriminate H; inv_some ]
   end.
 
 Ltac brk := repeat match goal with
